@@ -131,6 +131,35 @@ fn build_item(i: &Item) -> P {
                 Ty::I64 => pos!(i64, V::Int),
             }
         }
+        Leaf::Any {
+            metavar,
+            accept,
+            anywhere,
+        } => {
+            let mv = leak(metavar);
+            let accept = accept.clone();
+            let mut a = any::<OsString, _, _>(mv, move |x: OsString| {
+                let b = os_bytes(x);
+                let ok = match &accept {
+                    AnyAccept::All => true,
+                    AnyAccept::Prefix(p) => b.starts_with(p.as_bytes()),
+                    AnyAccept::Exact(e) => b == e.as_bytes(),
+                    AnyAccept::NoDash => !b.starts_with(b"-"),
+                };
+                if ok {
+                    Some(V::field(id, V::Bytes(b)))
+                } else {
+                    None
+                }
+            });
+            if let Some(h) = &i.help {
+                a = a.help(h.as_str());
+            }
+            if *anywhere {
+                a = a.anywhere();
+            }
+            a.boxed()
+        }
     }
 }
 
